@@ -961,15 +961,72 @@ func (k *c10k) invariants() []*c10Invariant {
 			},
 			check: both(
 				func() (bool, string) {
-					return storesAll(tf, "idf", func(st *ssa.Store) bool { return k.asLongAs(st.Parent(), st.Val, tf, "vocabulary", 0) })
-				},
-				func() (bool, string) {
-					n := 0
-					for _, mu := range k.mapUpdates["map[string]int"] {
-						if k.mapRoot(mu.Map, 0) != "F:"+tf+".vocabulary" {
-							continue
+					// two constructions establish it:
+					// (A) numbers from a counter stepped at each insertion, idf = make(.., len(vocabulary));
+					// (B) the number is len(idf) at the insertion and idf grows by one element right after
+					appendForm := func(fn *ssa.Function, blk *ssa.BasicBlock, after ssa.Instruction) bool {
+						seen := false
+						for _, in := range blk.Instrs {
+							if in == after {
+								seen = true
+								continue
+							}
+							if !seen {
+								continue
+							}
+							if st, ok := in.(*ssa.Store); ok {
+								if _, ok := ssau.IsFieldAddr(st.Addr, tf, "idf"); ok {
+									call, ok := st.Val.(*ssa.Call)
+									if !ok || ssau.CallName(call) != "builtin.append" || appendedSingle(call) == nil {
+										return false
+									}
+									_, isIdf := ssau.IsFieldLoad(call.Common().Args[0], tf, "idf")
+									return isIdf
+								}
+							}
 						}
-						n++
+						return false
+					}
+					var ups []*ssa.MapUpdate
+					for _, mu := range k.mapUpdates["map[string]int"] {
+						if k.mapRoot(mu.Map, 0) == "F:"+tf+".vocabulary" {
+							ups = append(ups, mu)
+						}
+					}
+					if len(ups) == 0 {
+						return false, "no insertion into vocabulary found"
+					}
+					formB := true
+					for _, mu := range ups {
+						lc, ok := mu.Value.(*ssa.Call)
+						if !ok || ssau.CallName(lc) != "builtin.len" {
+							formB = false
+							break
+						}
+						if _, isIdf := ssau.IsFieldLoad(lc.Common().Args[0], tf, "idf"); !isIdf || !appendForm(mu.Parent(), mu.Block(), mu) {
+							formB = false
+							break
+						}
+					}
+					if formB {
+						// every other assignment of idf empties it or is such an append
+						return storesAll(tf, "idf", func(st *ssa.Store) bool {
+							if mk, ok := st.Val.(*ssa.MakeSlice); ok {
+								z, isC := ssau.ConstInt(mk.Len)
+								return isC && z == 0
+							}
+							call, ok := st.Val.(*ssa.Call)
+							if !ok || ssau.CallName(call) != "builtin.append" || appendedSingle(call) == nil {
+								return false
+							}
+							_, isIdf := ssau.IsFieldLoad(call.Common().Args[0], tf, "idf")
+							return isIdf
+						})
+					}
+					if ok, d := storesAll(tf, "idf", func(st *ssa.Store) bool { return k.asLongAs(st.Parent(), st.Val, tf, "vocabulary", 0) }); !ok {
+						return false, d
+					}
+					for _, mu := range ups {
 						// value: a counter starting at 0 whose +1 step sits in the same block
 						ph, ok := mu.Value.(*ssa.Phi)
 						if !ok {
@@ -988,7 +1045,7 @@ func (k *c10k) invariants() []*c10Invariant {
 							return false, "the vocabulary counter at " + k.c.P.Pos(mu.Pos()) + " does not start at 0 and step by one with each insertion"
 						}
 					}
-					return n > 0, "no insertion into vocabulary found"
+					return true, ""
 				},
 				func() (bool, string) { return onlyIn(tf, "vocabulary", "TFIDFSearcher).buildIndex") },
 			),
